@@ -89,7 +89,7 @@ def blk_choice(rng, size):
 
 
 MAKE_FORMATS = ['pax', 'gnutar', 'ustar', 'v7tar', 'newc', 'odc', 'bin', 'zip', '7zip', 'xar', 'iso9660',
-                'arbsd', 'arsvr4', 'mtree', 'paxr', 'pwb']
+                'arbsd', 'arsvr4', 'mtree', 'paxr', 'pwb', 'warc']
 MAKE_FILTERS = ['none', 'none', 'none', 'gzip', 'bzip2', 'xz', 'zstd', 'lz4', 'compress', 'lzip', 'lzma', 'uuencode', 'b64encode']
 
 
@@ -131,7 +131,7 @@ class Part(ReadBase):
             for _ in range(3 if tier == 'quick' else 8):
                 v = rng.choice(variants).format(bs=rng.choice([7, 512, 513, 10240]),
                                                 cut=rng.choice([rng.randrange(0, 4000), rng.randrange(0, 150000)]))
-                blk = rng.choice(['7', '511', '512', '513', '10240', 'r%d' % rng.randrange(1, 999), 'c%d' % rng.randrange(0, 3000)]) if v.startswith('cb') else 'w'
+                blk = rng.choice(['1', '3', '7', '7', '64', '511', '512', '513', '10240', 'r%d' % rng.randrange(1, 999), 'c%d' % rng.randrange(0, 3000)]) if v.startswith('cb') else 'w'
                 ops.append(f'run blk={blk} src={v} cons={cons} trunc=- fault=-')
             yield Case(f'part:made:{label}:{cls}', ops, {'cls': cls})
         # multi-volume sets whose border falls inside a member that is skipped, not read
